@@ -130,7 +130,7 @@ def worker_main(a):
                 out['probes'][k] = out['probes'].get(k, 0) + v
             out['steps'] += res.get('steps', 0)
             if a.digests:
-                out['digests'][str(i)] = res.get('digest')
+                out['digests'][str(i)] = [core.digest({k: v for k, v in case.items()}), res.get('digest')]
             if len(out['samples']) < 2 and res.get('nontrivial'):
                 out['samples'].append({'index': i, 'hashseed': a.hashseed, 'case': core.jsonable(engine.sample_view(case) if hasattr(engine, 'sample_view') else case),
                                        'measure': core.jsonable(res.get('measure'))})
@@ -255,6 +255,7 @@ def orchestrate(a):
     budget = float(os.environ.get('VERIF_BUDGET_S', a.budget if a.budget else cfg['budget_s']))
     runs = int(a.runs) if a.runs else cfg.get('runs')       # None => time-bounded
     nh = cfg.get('hashseeds', 4)
+    hs_off = int(os.environ.get('VERIF_HS_OFFSET', '0'))       # determinism self-test only
     W = max(nh, (WORKERS // nh) * nh)
     t0 = time.time()
     work = tempfile.mkdtemp(prefix='verif-%s-' % prop, dir=os.environ.get('VERIF_WORK') or None)
@@ -264,12 +265,12 @@ def orchestrate(a):
         for w in range(W):
             count = 10 ** 9 if runs is None else len(range(w, runs, W))
             out = os.path.join(work, 'w%d.json' % w)
-            cmd = [PY, CHECK, prop, '--worker', '--tier', tier, '--seed', str(seed), '--hashseed', str(w % nh),
+            cmd = [PY, CHECK, prop, '--worker', '--tier', tier, '--seed', str(seed), '--hashseed', str(w % nh + hs_off),
                    '--start', str(w), '--stride', str(W), '--count', str(count), '--deadline', repr(deadline), '--out', out]
             if a.digests:
                 cmd += ['--digests', '1']
             log = open(os.path.join(work, 'w%d.log' % w), 'w')
-            procs.append((subprocess.Popen(cmd, env=child_env(w % nh), stdout=log, stderr=subprocess.STDOUT, cwd=VERIF_DIR), out, log))
+            procs.append((subprocess.Popen(cmd, env=child_env(w % nh + hs_off), stdout=log, stderr=subprocess.STDOUT, cwd=VERIF_DIR), out, log))
         regress = [k for k in load_known() if k['property'] == prop and k.get('replay')]
         for n, k in enumerate(regress):
             path = os.path.join(VERIF_DIR, k['replay'])
@@ -436,6 +437,7 @@ def main(argv=None):
     ap.add_argument('--deadline', type=float, default=0)
     ap.add_argument('--out')
     ap.add_argument('--casefile')
+    ap.add_argument('--only')
     a = ap.parse_args(argv)
     if a.prop.startswith('selftest'):
         from . import selftest
